@@ -63,12 +63,23 @@ def render(spec):
     return pre + render_duration(spec["dur"]) + "/" + render_point(spec["end"])
 
 
+_PARSER = []
+
+
+def long_lived_parser():
+    """One TimeRecurrenceParser per process, as an application would hold it:
+    it survives every calendar-mode switch between cases."""
+    if not _PARSER:
+        from metomi.isodatetime import parsers
+        _PARSER.append(parsers.TimeRecurrenceParser())
+    return _PARSER[0]
+
+
 def build(spec):
     """Library TimeRecurrence for the spec (constructor or parser)."""
     D = M.lib()
     if spec.get("via") == "parse":
-        from metomi.isodatetime import parsers
-        return parsers.TimeRecurrenceParser().parse(render(spec))
+        return long_lived_parser().parse(render(spec))
     kw = {"repetitions": spec["reps"]}
     if spec["fmt"] == 1:
         kw["start_point"] = M.make_point(spec["start"])
